@@ -182,6 +182,12 @@ def r_flags_tt(ck: Checker, rule: str = "R-FLAGS-TT") -> None:
     frs = fragments(ck.repo, "_gen_get_properties_func")
     n = 0
     for fr in frs:
+        dep = getattr(fr, "extra_dep", None)
+        if dep:
+            ck.violation(rule, fr.builder, fr.builder.node,
+                         "the generated get_properties code for a field depends on its name kind, compare and init only",
+                         construct=f"get_properties {_dkey(fr.desc)}: the emitted code changes with field.{dep} (not part of the documented flag table)")
+            return
         d = fr.desc
         n += 1
         bad = []
@@ -448,12 +454,47 @@ def _field_of(st: ast.stmt) -> str | None:
     return next(iter(names)) if len(names) == 1 else None
 
 
-def r_order_key(ck: Checker, rule: str = "R-ORDER-KEY") -> None:
+def r_gen_stateless(ck: Checker, rule: str = "R-ORDER-KEY") -> None:
+    """The code generated for a class is a function of that class's own field mapping: codegen keeps no module-level
+    mutable state through which the accessor of one class could depend on the classes generated before it."""
+    m = ck.repo.mod(CODEGEN)
+    what = "codegen keeps no module-level mutable state (the accessor generated for a class does not depend on classes generated earlier)"
+    state: dict[str, ast.AST] = {}
+    for st in m.tree.body:
+        tg = val = None
+        if isinstance(st, ast.Assign) and len(st.targets) == 1 and isinstance(st.targets[0], ast.Name):
+            tg, val = st.targets[0].id, st.value
+        elif isinstance(st, ast.AnnAssign) and isinstance(st.target, ast.Name) and st.value is not None:
+            tg, val = st.target.id, st.value
+        if tg is None:
+            continue
+        if isinstance(val, (ast.Dict, ast.List, ast.Set)) or (isinstance(val, ast.Call) and (dotted(val.func) or "").split(".")[-1] in (
+                "dict", "list", "set", "defaultdict", "OrderedDict", "WeakValueDictionary", "WeakKeyDictionary", "deque", "Counter")):
+            state[tg] = st
+    bad = None
+    for f in ck.repo.functions([m]):
+        for n in ast.walk(f.raw or f.node):
+            if isinstance(n, ast.Subscript) and isinstance(n.ctx, (ast.Store, ast.Del)) and isinstance(n.value, ast.Name) and n.value.id in state:
+                bad = (f, n, n.value.id)
+            if isinstance(n, ast.Call) and isinstance(n.func, ast.Attribute) and isinstance(n.func.value, ast.Name) and n.func.value.id in state \
+                    and n.func.attr in ("setdefault", "update", "append", "add", "pop", "clear", "extend", "insert", "popitem", "remove", "discard"):
+                bad = (f, n, n.func.value.id)
+            if isinstance(n, ast.Global) and set(n.names) & set(state):
+                bad = (f, n, sorted(set(n.names) & set(state))[0])
+    if bad:
+        ck.violation(rule, bad[0], bad[1], what, construct=f"{bad[0].qualname} updates the module-level {bad[2]} (generated code / closures shared between classes)")
+    else:
+        ck.holds(rule, (m.rel, "module"), None, what, module_level_containers=sorted(state))
+
+
+def r_order_key(ck: Checker, rule: str = "R-ORDER-KEY", gens: tuple[str, ...] | None = None, base_props: bool = True) -> None:
     """Sorted branch: fields by name; unsorted branch: mapping order.  Decided on the emitted text: the generator is
     evaluated (geneval) on a three-field mapping whose insertion order, name order and name-length order all differ."""
     from ..geneval import Fld, TypeInfo, branches, parse_body, run_generator
 
     for gen, acc in GENERATORS.items():
+        if gens is not None and gen not in gens:
+            continue
         f = ck.repo.func(CODEGEN, gen)
         fields = [(Fld("b"), TypeInfo(True)), (Fld("ab"), TypeInfo(False)), (Fld("c"), TypeInfo(False))]
         cap = run_generator(ck.repo, gen, fields)
@@ -492,6 +533,20 @@ def r_order_key(ck: Checker, rule: str = "R-ORDER-KEY") -> None:
             ck.violation(rule, f, f.node, what2, construct=f"{gen}: closure binding of {wrong[0]} is {cap.local_vars.get(wrong[0])!r}")
         else:
             ck.holds(rule, f, f.node, what2, closure_vars=sorted(cap.local_vars))
+        if gen == "_gen_get_properties_func" and base_props:
+            # the properties every node has (id, content_id, origin) are ordinary members of the name order
+            fields2 = [(Fld("origin"), TypeInfo(False)), (Fld("b"), TypeInfo(False)), (Fld("id"), TypeInfo(False)), (Fld("ab"), TypeInfo(False)),
+                       (Fld("content_id"), TypeInfo(False))]
+            cap2 = run_generator(ck.repo, gen, fields2)
+            s2, u2 = branches(parse_body(cap2.body or ""))
+            so2, uo2 = order(s2), order(u2)
+            what4 = f"{gen}: with sort_keys, id / content_id / origin are yielded at their place in the name order; without, in mapping order"
+            if so2 != ["ab", "b", "content_id", "id", "origin"]:
+                ck.violation(rule, f, f.node, what4, construct=f"{gen}: sorted branch emits {so2} for the mapping (origin, b, id, ab, content_id)")
+            elif uo2 != ["origin", "b", "id", "ab", "content_id"]:
+                ck.violation(rule, f, f.node, what4, construct=f"{gen}: unsorted branch emits {uo2} for the mapping (origin, b, id, ab, content_id)")
+            else:
+                ck.holds(rule, f, f.node, what4, sorted_order=so2)
         # no fields: still a generator function
         cap0 = run_generator(ck.repo, gen, [])
         if gen != "_gen_get_properties_func":  # every node class has properties (id, content_id, origin)
